@@ -384,6 +384,13 @@ def lean_build_and_audit(ctx):
         if rc != 0:
             problems.append("translator decls.py failed:\n" + out)
             return 0, 0, {}, problems
+    if ctx.prop in ("C08", "C09"):
+        # the size-estimation impls as the source has them now (tools/memdecls.py -> Generated/MemDecls.lean)
+        rc, out = run([sys.executable, os.path.join(ctx.root, "tools", "memdecls.py"), "/repo/src",
+                       os.path.join(lean, "LruMem", "Generated", "MemDecls.lean")])
+        if rc != 0:
+            problems.append("translator memdecls.py failed:\n" + out)
+            return 0, 0, {}, problems
     target = f"LruMem.Props.{ctx.prop}"
     # a property's theorems may continue in Props/<id>b.lean, Props/<id>c.lean, …
     extra = sorted(f[:-5] for f in os.listdir(os.path.join(lean, "LruMem", "Props"))
@@ -451,7 +458,7 @@ def build_harness(ctx):
     rc, out = run(["cargo", "build", "--release", "--offline"], cwd=h, timeout=1800)
     if rc == 0:
         ctx.harness_variant = {}
-        if True:
+        if ctx.prop not in ("C08", "C09", "C18"):
             for v in VARIANTS:
                 rcv, outv = run(["cargo", "build", "--release", "--offline", "--features", VARIANT_FEATURES[v], "--target-dir", f"target-{v}"], cwd=h, timeout=1800)
                 if rcv != 0:
